@@ -483,7 +483,8 @@ def term_cases(cases):
         try:
             if c["kind"] == "unify":
                 prog = ("r(p(%(x)s,%(y)s)) :- %(x)s = %(y)s.\nn :- %(x)s \\= %(y)s.\nh(%(yh)s).\nrh(%(x)s) :- h(%(x)s).\n"
-                        "h2(%(yh)s) :- true.\nrh2(%(x)s) :- h2(%(x)s).\n" % c)
+                        "h2(%(yh)s) :- true.\nrh2(%(x)s) :- h2(%(x)s).\n"
+                        "kk(zz). kk2(f(yy),ww).\nh3(%(yh)s) :- kk(Zb1), kk2(f(Zb2),Zb3).\nrh3(%(x)s) :- h3(%(x)s).\n" % c)
                 db = eng.prepare(PrologString(prog))
                 code, res = _q(db, eng, Term("r", None))
                 r["eq"] = {"ok": code, "res": T.from_problog(res[0][0]) if code == 1 else T.A("none")}
@@ -495,6 +496,8 @@ def term_cases(cases):
                 r["head"] = {"ok": code, "res": T.from_problog(res[0][0]) if code == 1 else T.A("none")}
                 code2, res2 = _q(db, eng, Term("rh2", None))
                 r["head2"] = {"ok": code2, "res": T.from_problog(res2[0][0]) if code2 == 1 else T.A("none")}
+                code3, res3 = _q(db, eng, Term("rh3", None))
+                r["head3"] = {"ok": code3, "res": T.from_problog(res3[0][0]) if code3 == 1 else T.A("none")}
             elif c["kind"] == "cmp":
                 prog = ("c(O) :- compare(O, %(x)s, %(y)s).\nlt :- %(x)s @< %(y)s.\nle :- %(x)s @=< %(y)s.\n"
                         "gt :- %(x)s @> %(y)s.\nge :- %(x)s @>= %(y)s.\neq :- %(x)s == %(y)s.\nne :- %(x)s \\== %(y)s.\n" % c)
